@@ -133,6 +133,9 @@ type c18Real struct {
 	fresh func() (set func(parameters.Map), params func() *parameters.Parameters)
 	// late-failure probe: use the component after SetParameters reported no error (nil = no probe)
 	late func(user parameters.Map) (errText string)
+	// the parameters of a DEEP CLONE of a fresh component of the deployed type to which the maps were applied in
+	// order (every run of a scenario works on clones of the configured components); nil = component is not cloned
+	cloneOf func(maps []parameters.Map) *parameters.Parameters
 }
 
 func c18Reals(csvPath string) []c18Real {
@@ -142,11 +145,26 @@ func c18Reals(csvPath string) []c18Real {
 				sa := new(annealers.SimpleAnnealer)
 				sa.Initialise()
 				return func(m parameters.Map) { sa.SetParameters(m) }, sa.VerifC18Params
+			},
+			cloneOf: func(maps []parameters.Map) *parameters.Parameters {
+				sa := new(annealers.SimpleAnnealer)
+				sa.Initialise()
+				for _, m := range maps {
+					sa.SetParameters(m)
+				}
+				return sa.DeepClone().(*annealers.SimpleAnnealer).VerifC18Params()
 			}},
 		{name: "internal/pkg/annealing/cooling/coolants/averaged.ParameterSpecifications", table: coolAveraged.ParameterSpecifications,
 			fresh: func() (func(parameters.Map), func() *parameters.Parameters) {
 				c := coolAveraged.NewCoolant()
 				return func(m parameters.Map) { c.SetParameters(m) }, c.VerifC18Params
+			},
+			cloneOf: func(maps []parameters.Map) *parameters.Parameters {
+				c := coolAveraged.NewCoolant()
+				for _, m := range maps {
+					c.SetParameters(m)
+				}
+				return c.DeepClone().(*coolAveraged.Coolant).VerifC18Params()
 			}},
 		{name: "internal/pkg/annealing/cooling/coolants/kirkpatrick.ParameterSpecifications", table: coolKirk.ParameterSpecifications,
 			fresh: func() (func(parameters.Map), func() *parameters.Parameters) {
@@ -157,21 +175,51 @@ func c18Reals(csvPath string) []c18Real {
 			fresh: func() (func(parameters.Map), func() *parameters.Parameters) {
 				c := coolSupp.NewCoolant()
 				return func(m parameters.Map) { c.SetParameters(m) }, c.VerifC18Params
+			},
+			cloneOf: func(maps []parameters.Map) *parameters.Parameters {
+				c := coolSupp.NewCoolant()
+				for _, m := range maps {
+					c.SetParameters(m)
+				}
+				return c.DeepClone().(*coolSupp.Coolant).VerifC18Params()
 			}},
 		{name: "internal/pkg/annealing/explorer/kirkpatrick.ParameterSpecifications", table: expKirk.ParameterSpecifications,
 			fresh: func() (func(parameters.Map), func() *parameters.Parameters) {
 				e := expKirk.New()
 				return func(m parameters.Map) { e.SetParameters(m) }, e.VerifC18Params
+			},
+			cloneOf: func(maps []parameters.Map) *parameters.Parameters {
+				e := expKirk.New()
+				for _, m := range maps {
+					e.SetParameters(m)
+				}
+				return e.DeepClone().(*expKirk.Explorer).VerifC18Params()
 			}},
 		{name: "internal/pkg/annealing/explorer/suppapitnarm.ParameterSpecifications", table: expSupp.ParameterSpecifications,
 			fresh: func() (func(parameters.Map), func() *parameters.Parameters) {
 				e := expSupp.New()
 				return func(m parameters.Map) { e.SetParameters(m) }, e.VerifC18Params
+			},
+			cloneOf: func(maps []parameters.Map) *parameters.Parameters {
+				e := expSupp.New()
+				for _, m := range maps {
+					e.SetParameters(m)
+				}
+				return e.DeepClone().(*expSupp.Explorer).VerifC18Params()
 			}},
 		{name: "internal/pkg/model/models/catchment/parameters.ParameterSpecifications", table: catchParams.ParameterSpecifications,
 			fresh: func() (func(parameters.Map), func() *parameters.Parameters) {
 				m := catchment.NewCoreModel()
 				return func(u parameters.Map) { m.SetParameters(u) }, m.VerifC18Params
+			},
+			cloneOf: func(maps []parameters.Map) *parameters.Parameters {
+				// the deployed type: catchment.Model (its DeepClone re-initialises the clone, loading the data source
+				// the parameters name when there is one)
+				m := catchment.NewModel()
+				for _, u := range maps {
+					m.SetParameters(u)
+				}
+				return m.DeepClone().(*catchment.Model).VerifC18Params()
 			},
 			late: func(user parameters.Map) string {
 				u := parameters.Map{}
@@ -200,6 +248,13 @@ func c18Reals(csvPath string) []c18Real {
 				m := dumb.NewModel()
 				return func(u parameters.Map) { m.SetParameters(u) }, m.VerifC18Params
 			},
+			cloneOf: func(maps []parameters.Map) *parameters.Parameters {
+				m := dumb.NewModel()
+				for _, u := range maps {
+					m.SetParameters(u)
+				}
+				return m.DeepClone().(*dumb.Model).VerifC18Params()
+			},
 			late: func(user parameters.Map) string {
 				m := dumb.NewModel()
 				if err := m.SetParameters(user); err != nil {
@@ -216,6 +271,16 @@ func c18Reals(csvPath string) []c18Real {
 			fresh: func() (func(parameters.Map), func() *parameters.Parameters) {
 				m := modumb.NewModel()
 				return func(u parameters.Map) { m.SetParameters(u) }, m.VerifC18Params
+			},
+			cloneOf: func(maps []parameters.Map) *parameters.Parameters {
+				m := modumb.NewModel()
+				for _, u := range maps {
+					if n, ok := u[modumbParams.NumberOfPlanningUnits].(int64); ok && n > 2000 {
+						return nil // allocation proportional to the value: out of the probe's budget
+					}
+					m.SetParameters(u)
+				}
+				return m.DeepClone().(*modumb.Model).VerifC18Params()
 			},
 			late: func(user parameters.Map) string {
 				if n, ok := user[modumbParams.NumberOfPlanningUnits].(int64); ok && n > 2000 {
@@ -790,12 +855,15 @@ func c18RunComponent(comp *c18Component, real *c18Real, user []c18KV, class stri
 	}
 	um := c18ToMap(user)
 	c18primeCounter++
+	var applied []parameters.Map
 	panicked, what := protect(func() {
 		if c18primeCounter%2 == 0 {
 			c18stats["primed_with_defaults"]++
 			set(c18DefaultsMap(comp))
+			applied = append(applied, c18DefaultsMap(comp))
 		}
 		set(um)
+		applied = append(applied, um)
 	})
 	focus := ""
 	if len(user) > 0 {
@@ -815,8 +883,45 @@ func c18RunComponent(comp *c18Component, real *c18Real, user []c18KV, class stri
 		return
 	}
 	c18Check("component", comp, demanded, user, real, o)
+	c18CloneCheck(comp, real, user, applied, keys, o)
 	// the case is compared against the model run with the variant the translator found in the source
 	c18Emit("component", comp, comp.Variant, user, o, keys, class)
+}
+
+// what every run actually reads: the parameters of a deep clone of the configured component must be, key by key,
+// what the component the map was applied to reads (same presence, same getter, same value)
+func c18CloneCheck(comp *c18Component, real *c18Real, user []c18KV, applied []parameters.Map, keys []string, o *c18Obs) {
+	if real.cloneOf == nil {
+		return
+	}
+	var oc *c18Obs
+	panicked, what := protect(func() {
+		if p := real.cloneOf(applied); p != nil {
+			oc = c18Observe(p, keys)
+		}
+	})
+	if panicked {
+		c18stats["clone_probe_panics"]++
+		if o.errCount == 0 && len(o.otherErrors) == 0 {
+			c18Oracle("component reported no parameter error but deep-cloning it (what every run does) panics", "clone", comp, comp.Variant, user, J{"panic": what})
+		}
+		return
+	}
+	if oc == nil {
+		return
+	}
+	c18stats["clone_probe_runs"]++
+	diffs := []J{}
+	for _, k := range keys {
+		a, _ := json.Marshal(o.probe[k])
+		b, _ := json.Marshal(oc.probe[k])
+		if o.has[k] != oc.has[k] || string(a) != string(b) {
+			diffs = append(diffs, J{"key": k, "component_has": o.has[k], "clone_has": oc.has[k], "component_reads": o.probe[k], "clone_reads": oc.probe[k]})
+		}
+	}
+	if len(diffs) > 0 {
+		c18Oracle("a deep clone of the configured component (what every run of a scenario works on) does not read the parameter values the component itself reads", "clone", comp, comp.Variant, user, J{"differences": diffs})
+	}
 }
 
 var c18LateSeen = map[string]bool{}
